@@ -20,7 +20,7 @@ import (
 
 func init() {
 	vc.Register(&vc.Check{ID: "C05", Level: "model_checking", Run: run, Replay: replay, QuickSec: 120, ThoroSec: 900,
-		Rule: "real bac.DoBAC (password from the full MRZ and from its three fields) against the independent chip personalised with keys derived by the reference from the printed MRZ. MRZ alphabet: three layouts x document-number lengths 1..9 and extended 10..max x filler/letter/digit shapes x date shapes; randoms RND.IC, K.IC (chip) and RND.IFD, K.IFD (terminal, through crypto/rand.Reader) from the full product {00..,FF..,pattern}^4. Success oracle: Success, the chip authenticated the terminal, and a protected file read succeeds on both sides (same session keys and SSC). Hostile responses (one deviation at the EXTERNAL AUTHENTICATE answer): every single-bit flip of the 40-byte cryptogram, MAC under another MRZ's keys, genuine cryptogram of another run, RND.IFD / RND.IC not echoed under a correct MAC, lengths 39/41, all-zero, bare status => Success=false and no SM session. states = protocol runs, transitions = exchanges; distinct_nontrivial = distinct (layout, docnum length, random combo | hostile kind, outcome)",
+		Rule: "real bac.DoBAC (password from the full MRZ and from its three fields) against the independent chip personalised with keys derived by the reference from the printed MRZ. MRZ alphabet: three layouts x document-number lengths 1..9 and extended 10..max x filler/letter/digit shapes x date shapes; randoms RND.IC, K.IC (chip) and RND.IFD, K.IFD (terminal, through crypto/rand.Reader) from the full product {00..,FF..,pattern}^4. Success oracle: Success, the chip authenticated the terminal, and a protected file read succeeds on both sides (same session keys and SSC). Hostile responses (one deviation at the EXTERNAL AUTHENTICATE answer): every single-bit flip of the 40-byte cryptogram, MAC under another MRZ's keys, genuine cryptogram of another run, RND.IFD / RND.IC not echoed under a correct MAC, lengths 39/41, all-zero, bare status, the terminal's own cryptogram reflected => Success=false and no SM session. states = protocol runs, transitions = exchanges; distinct_nontrivial = distinct (layout, docnum length, random combo | hostile kind, outcome)",
 		Assume: []string{"reference KDF / 3DES / retail MAC anchored to ICAO 9303-11 App. D.2/D.3 by SelfTest", "MAC forgery not searched"}})
 }
 
@@ -106,8 +106,22 @@ func runOne(rc runCase) result {
 			return []byte{0x90, 0x00}
 		case "sw-6300":
 			return append(bytes.Clone(cg), 0x63, 0x00)
-		case "echo-command":
-			return nil // handled through Hostile.Exec below
+		case "reflect-command":
+			// a device without any key reflects the terminal's own cryptogram (its MAC verifies, both challenges are inside)
+			w := chip.Log[n].Wire
+			if len(w) >= 45 {
+				return append(bytes.Clone(w[5:45]), 0x90, 0x00)
+			}
+			return nil
+		case "reflect-command-blocks-swapped":
+			w := chip.Log[n].Wire
+			if len(w) >= 45 {
+				d := bytes.Clone(w[5:45])
+				copy(d[0:8], w[13:21])
+				copy(d[8:16], w[5:13])
+				return append(d, 0x90, 0x00)
+			}
+			return nil
 		}
 		return nil
 	}
@@ -280,7 +294,7 @@ func run(c *vc.Ctx) {
 	}
 hostile:
 	sec2 := "hostile EXTERNAL AUTHENTICATE responses"
-	kinds := []string{"mac-under-other-mrz", "plaintext-under-other-enc-key-genuine-mac-key", "replay-other-run", "len39", "len41", "all-zero", "bare-9000", "sw-6300"}
+	kinds := []string{"reflect-command", "reflect-command-blocks-swapped", "mac-under-other-mrz", "plaintext-under-other-enc-key-genuine-mac-key", "replay-other-run", "len39", "len41", "all-zero", "bare-9000", "sw-6300"}
 	hb := []base{bs[0], bs[len(bs)/2], bs[len(bs)-1]}
 	c.SecBound(sec2, fmt.Sprintf("%d bases x 3 random combos x (320 single-bit flips of the cryptogram + 16 SW bit flips + 64 RND.IFD bits not echoed + 64 RND.IC bits not echoed + %d structural kinds)", len(hb), len(kinds)))
 	for _, b := range hb {
@@ -307,6 +321,11 @@ hostile:
 			}
 			for _, k := range kinds {
 				if !c.Mine() {
+					continue
+				}
+				if (k == "reflect-command" || k == "reflect-command-blocks-swapped") && rn[0] == rn[2] {
+					// RND.IC == RND.IFD (probability 2^-64 outside this alphabet): a reflected cryptogram IS a well-formed
+					// echo of both challenges and no implementation can tell it apart - not judged
 					continue
 				}
 				do(sec2, mk(k, 0), "h/"+k)
